@@ -4,6 +4,7 @@ pub mod big;
 pub mod engine;
 pub mod gen;
 pub mod probe;
+pub mod recip;
 
 pub use engine::*;
 pub use num_bigint::{BigInt, BigUint};
